@@ -65,9 +65,9 @@ type h2Shared struct {
 	limitReached bool
 	// the limit was reached before the harness cancelled anything: the pool stopped because of the limit
 	limitBeforeCancel bool
-	total        progress.Snapshot
-	leftover     []string
-	finished     bool
+	total             progress.Snapshot
+	leftover          []string
+	finished          bool
 }
 
 // begin/end do the ground-truth bookkeeping atomically (this file has no scheduling points).
